@@ -63,6 +63,10 @@ CLAIMED = {
  'C03': ('fault_enumeration', 'stop injection at trigger points of the hook event stream x configuration matrix, one child process per run; parent-side exit/stderr/file oracle with the independent WARC reader; in-child structural-quiescence (stuck) detector with goroutine frames',
          'Every run stops the real pipeline (controler.Stop or a real SIGTERM through WatchSignals) at a moment defined by the k-th occurrence of a pipeline event, including with some/all workers paused; the process must exit 0 without panic, leave no .open file and only complete records, and must not become quiescent with the stop outstanding.',
          'Moments and configurations are enumerated from a fixed list (quick samples the 64-point matrix, thorough covers it); origin delays bounded so that 20 s after the request only timers remain; HQ source not in this matrix.', '4/C03'),
+
+ 'C04': ('fault_enumeration', 'kill / stop injection at instrumented points (the hook handler SIGKILLs its own process at the n-th hit) and at seeded random times, restart on the same job directory; parent-side oracle over lq.db rows, the origin log of both runs, the write-through event log and the WARC files left on disk',
+         'Each pair (run 1 dies, run 2 restarts) is judged by set algebra: every valid row present at the death must be requested in run 2 and be gone at its quiescence; every row deleted before the death must have a matching complete response record in the files run 1 left; those files must parse record by record up to a single trailing partial member.',
+         'A killed process, not a killed machine; kill points are the hook points of the claim/insert/fetch/feedback/finish/delete/add paths x occurrence; listed finding: in-progress seeds are skipped as seen after a restart when the local seencheck is on.', '4/C04'),
 }
 NOT_BUILT = 'check not built yet in this session (planned, see DESIGN.md section 4)'
 
